@@ -144,6 +144,28 @@ def lastDescMonoItems (names : List Str) (addr : List Nat) (i : Nat) : List Val 
   | v :: rest => lastDescMono (names ++ [dec i]) (addr ++ [i]) v && lastDescMonoItems names addr (i + 1) rest
 end
 
+mutual
+/-- **Where a `node` occurrence starts** (since fix 44b0b15, `pos_to_span` sorts the two captured lines): one
+`(type, start)` per node that carries a line number, in pre-order, `start` being the smaller of the node's own
+line and the line of its last positioned strict descendant in dump order (its own line when there is none).
+Under `lastDescMono` this is the node's own line: `nodeStartsSpec_eq_positioned`. -/
+def nodeStartsSpec (names : List Str) (addr : List Nat) : Val → List (Str × Nat)
+  | .node ty _ _ ln fs =>
+    (match ln with
+      | some n => [(ty, match lastPosOfEntries (entriesFields names addr 0 fs) with
+          | some (n', _) => min n n'
+          | none => n)]
+      | none => []) ++ nodeStartsSpecFields names addr 0 fs
+  | .list _ xs => nodeStartsSpecItems names addr 1 xs
+  | .scalar _ _ => []
+def nodeStartsSpecFields (names : List Str) (addr : List Nat) (i : Nat) : List (Str × Val) → List (Str × Nat)
+  | [] => []
+  | (n, v) :: rest => nodeStartsSpec (names ++ [n]) (addr ++ [i]) v ++ nodeStartsSpecFields names addr (i + 1) rest
+def nodeStartsSpecItems (names : List Str) (addr : List Nat) (i : Nat) : List Val → List (Str × Nat)
+  | [] => []
+  | v :: rest => nodeStartsSpec (names ++ [dec i]) (addr ++ [i]) v ++ nodeStartsSpecItems names addr (i + 1) rest
+end
+
 /-- `Tree.WF` for the span theorems of C02 (Bool-valued, evaluated by the driver on every tree). -/
 def treeOk2 (t : Val) : Bool :=
   (entries [] [] t).all fun e => e.ok2 && e.typed (posTypes t).contains
